@@ -87,6 +87,9 @@ struct Foreign {
 struct BusNode {
   bool lib = false; std::unique_ptr<Node> n; Foreign f; std::deque<Frame> inbox; int mode = 1; int ndev = 0;
   bool pendingChange = false;       // an own address changed since the application last read the indication
+  // one search = the lost arbitrations of a device with no successful claim (250 ms), commanded address, restart or open in between
+  struct Search { std::set<unsigned> visited; int lost = 0; uint64_t lastClaim = 0; bool init = false; };
+  std::vector<Search> search;
   bool onBus() const { return lib ? n->isOpen() : f.started; }
 };
 static std::vector<BusNode> B;
@@ -236,6 +239,23 @@ static std::vector<Frame> libAct(size_t idx, const std::vector<Frame> &rx, Stim 
   }
   // (e) a node that just opened announces every device
   if (!wasOpen && N.isOpen() && claimant) for (int i = 0; i < nd; i++) if (!sentClaim(n1[i], a1[i])) C.fail("C03:no-claim-on-open", "device %d at %u not announced", i, a1[i]);
+  // (g) one search visits every address at most once and ends at 254 after at most 252 lost arbitrations
+  if (claimant) {
+    if ((int)b.search.size() != nd) b.search.assign(nd, BusNode::Search());
+    bool fresh = st.k == OP_CMD || st.k == OP_RESTART || (!wasOpen && N.isOpen());
+    for (int i = 0; i < nd; i++) {
+      BusNode::Search &S = b.search[i];
+      if (!S.init || fresh || g_now - S.lastClaim >= 250) { S.visited.clear(); S.visited.insert(fresh ? a1[i] : a0[i]); S.lost = 0; S.init = true; }
+      if (!fresh && a1[i] != a0[i]) {
+        S.lost++;
+        if (a1[i] <= 251 && !S.visited.insert(a1[i]).second)
+          C.fail("C03:address-claimed-twice-in-search", "device %d moved from %u to %u, which it already tried in this search (%d lost arbitrations)", i, a0[i], a1[i], S.lost);
+        if (S.lost == 253 && a1[i] != 254)
+          C.fail("C03:search-not-exhausted", "device %d lost 253 arbitrations in one search and is at %u, not at 254", i, a1[i]);
+      }
+      if (sentClaim(n1[i], a1[i])) S.lastClaim = g_now;
+    }
+  }
   // (f) only claimants with valid addresses
   for (int i = 0; i < nd; i++) if (a1[i] != a0[i] && !(a1[i] <= 251 || a1[i] == 254)) C.fail("C03:bad-next-address", "device %d moved from %u to %u", i, a0[i], a1[i]);
   return claims;
@@ -571,22 +591,28 @@ static void level1Case(Rng &R) {
 }
 
 // one device loses every arbitration until the address space is exhausted, then Restart()
-static void level1Exhaust(Rng &R) {
-  int nd = (int)R.range(1, 4); unsigned start = pickAddr(R, (int)R.below(5));
+// variant: -1 random start; 0/1/2 search starts at preferred address 0 / 251 / 1; 3 settled on 0 after the 251->0 wrap; 4 commanded to 0
+static void level1Exhaust(Rng &R, int variant = -1) {
+  int nd = variant >= 0 ? (int)R.range(1, 2) : (int)R.range(1, 4);
+  unsigned start = pickAddr(R, (int)R.below(5));
+  if (variant == 0) start = 0; else if (variant == 1 || variant == 3) start = 251; else if (variant == 2) start = 1; else if (variant == 4) start = 100;
   std::string l = std::string("reset ") + FLAVOR + " " + std::to_string(R.chance(1, 2) ? 1 : 2) + " " + std::to_string(nextOrigin(R));
-  for (int i = 0; i < nd; i++) l += " " + std::to_string((start + 3 * i) % 252) + ":" + hx(mkName(R, 20 + i));
+  std::vector<uint64_t> nm; for (int i = 0; i < nd; i++) nm.push_back(mkName(R, 20 + i));
+  for (int i = 0; i < nd; i++) l += " " + std::to_string((start + 30 * i) % 252) + ":" + hx(nm[i]);
   exec(l); exec("t 1"); exec("poll"); exec("t 201"); exec("poll");
-  Node &N = *B[0].n; int d = (int)R.below(nd); bool expire = R.chance(1, 3);
+  if (variant == 3) { exec("claim 251 " + hx(0x900)); exec("changed"); exec("t 251"); exec("poll"); }          // loses 251, takes 0, holds it for 250 ms
+  if (variant == 4) { exec("t 251"); exec("poll"); exec("cmdaddr " + hx(nm[0]) + " 0 255"); exec("changed"); if (R.chance(1, 2)) { exec("t 251"); exec("poll"); } }
+  Node &N = *B[0].n; int d = variant >= 0 ? 0 : (int)R.below(nd); bool expire = variant < 0 && R.chance(1, 3);
   exec("changed");
   // a wall of lower NAMEs: every address the device tries is claimed back, 252 frames until the search is exhausted;
   // the indication is read after EVERY step, so each move (and the final one to 254) must be reported by itself
-  for (int k = 0; k < 600 && N.src(d) != 254; k++) {
+  for (int k = 0; k < (expire ? 600 : 300) && N.src(d) != 254; k++) {
     exec("claim " + std::to_string(N.src(d)) + " " + hx(0x1000 + k));
     exec("changed");
     if (k % 60 == 7) genSend(R, nd);
     if (expire && k == 100) { exec("t 251"); exec("poll"); exec("changed"); }     // a successful claim in between moves the end-of-search address
   }
-  if (N.src(d) != 254) C.fail("harness:wall-not-exhausted", "device %d still at %u after 600 lost arbitrations", d, N.src(d));
+  if (N.src(d) != 254) C.count("wall_not_exhausted");      // judged by the oracle: C03:search-not-exhausted / C03:address-claimed-twice-in-search
   exec("get"); exec("changed"); exec("claim 254 1"); exec("changed"); exec("t 300"); exec("poll"); exec("changed");
   // the device could not claim an address: the application keeps sending, heartbeats fall due - nothing but claims may leave from 254
   for (int k = 0; k < 6; k++) genSend(R, nd);
@@ -743,6 +769,7 @@ int main(int argc, char **argv) {
   int n1 = C.thorough ? 1200 : 150;
   for (int i = 0; i < n1; i++) level1Case(R);
   for (int i = 0; i < (C.thorough ? 12 : 2); i++) level1Exhaust(R);
+  for (int rep = 0; rep < (C.thorough ? 3 : 1); rep++) for (int v = 0; v < 5; v++) level1Exhaust(R, v);
   for (int i = 0; i < (C.thorough ? 600 : 80); i++) level1Pressure(R);
   C.sample("level 1: reset + claim/rxc/cmdaddr/t/poll/restart on one real instance (1..9 devices), compared line by line with the model");
   // (2) whole bus, all schedules of small configurations
